@@ -1367,7 +1367,9 @@ func (c *c08) listItem(cx *Ctx, r *rand.Rand, kind string) *Item {
 		l = g.pairList()
 		act = "k"
 	default:
-		g = newC08Gen(r, 0)
+		// ground lists, and lists with ONE variable (possibly several times: still one well-defined order, and the variable
+		// has to come out once)
+		g = newC08Gen(r, []int{0, 0, 1}[r.Intn(3)])
 		g.noNegZero = true
 		for l == nil || l.IsAtom("[]") {
 			l = g.sortList()
